@@ -9,3 +9,7 @@ CONSTANTS
   Pres = {"none", "hop"}
   Maps = {"none", "cover", "other"}
   MapRebuildLossy = FALSE
+  Sibs = {"none", "db", "coll", "member"}
+  Vias = {"seed", "event"}
+  SkipBase = FALSE
+  GcByPrefix = FALSE
